@@ -691,6 +691,13 @@ def run_program(env, cfg, prog, record=True, plain=False, fault=None):
                             rec.trace.append(ev)
                             rec.snaps.append(rec.snapshot())
                         rec.raw_pending = []
+                elif kind == 'revert':
+                    # ['revert', cls, key, tx, [relation names]]
+                    V = env.version_class(classes[op[1]])
+                    txc = env.manager.option(classes[op[1]], 'transaction_column_name')
+                    vobj = s.query(V).filter(V.id == op[2], getattr(V, txc) == op[3]).one()
+                    vobj.revert(relations=list(op[4]))
+                    refs.clear()
                 elif kind == 'activity':
                     # ['activity', verb, [cls, key], [cls, key] | None]; the application keeps the reference
                     Act = env.manager.activity_cls
